@@ -55,7 +55,7 @@ NEVER = _dt.timedelta(days=3650)  # a timeout option that is set but cannot fire
 
 
 class St:
-    __slots__ = ("root", "prio", "clock", "ctl", "ctx", "born", "pcur", "reg", "own", "waits", "why", "last", "wd", "pi")
+    __slots__ = ("root", "prio", "clock", "ctl", "ctx", "born", "pcur", "reg", "own", "waits", "why", "last", "wd", "pi", "nre")
 
 
 # ---------------------------------------------------------------- reference helpers
@@ -123,6 +123,7 @@ class Model:
         st.waits = set()
         st.why = {}
         st.last = None
+        st.nre = 0  # restarts so far (only bounded - and then part of the canonical state - in the deep families)
         t = 0
         for o, _p, t0 in root["ops"]:  # t0: start instant (equal instants = equal ages)
             st.clock.advance(t0 - t)
@@ -159,7 +160,7 @@ class Model:
         out = []
         for o, _p, _t in st.root["ops"]:
             if o not in st.ctx:
-                if on("start"):
+                if on("start") and st.nre < st.root.get("restarts", 1 << 30):
                     out.append(("start", o))
                 continue
             for r in st.reg:
@@ -205,7 +206,7 @@ class Model:
         if st.root.get("kills") == "set":  # deep families: WHICH ids each watchdog object has killed, not how often / when
             wdh = tuple(tuple(sorted(set(h))) for h in wdh)
         return (age, act, res, own, per, tuple(sorted(st.waits)), edges, tuple(sorted(st.why.items())), boosts, wdh,
-                tuple(st.reg))
+                tuple(st.reg), st.nre if "restarts" in st.root else None)
 
     def observe(self, st):
         return st.last
@@ -224,6 +225,7 @@ class Model:
         try:
             if kind == "start":
                 self._start(st, op[1])
+                st.nre += 1
             elif kind == "acquire":
                 o, r = op[1], op[2]
                 result = ctl.acquire_resource(st.ctx[o], r)
@@ -317,6 +319,7 @@ class Model:
                       f"check_deadlock() is {'a cycle' if info is not None else 'None'}"))
         oncyc = cycle_edges(ref1)
         st.last = (kind, rname, len(ended), info is not None, bool(oncyc), bool(missing), bool(extra))
+        nv0 = len(v)
         if info is None and oncyc:
             inv = sorted(e for e in oncyc if e in missing)
             causes = sorted({why[("missing",) + e] for e in inv}) or ["missed-deadlock:graph-in-sync"]
@@ -352,13 +355,28 @@ class Model:
                                   f"{info.resources} do not chain into one cycle"))
         if kind == "watchdog" and info is not None and extra_info.get("victim") in info.agents:
             v.append(("cycle-survives-watchdog", f"victim {extra_info['victim']} still in reported cycle {info.agents}"))
+        if info is not None and len(v) > nv0:
+            # A state whose reported cycle is wrong is not expanded by the search, so the watchdog clause would never
+            # be judged on it: do it here, on copies, for both strategies (what does "handling" this report do?)
+            for s in STRATEGIES:
+                c = self.clone(st)
+                vclock.use(c.clock)
+                c.clock.advance(1)
+                try:
+                    pv = self._watchdog(c, s, [], {})
+                except Exception as e:  # noqa: BLE001
+                    pv = [(f"raises:watchdog:{type(e).__name__}", f"raised {type(e).__name__}: {e}")]
+                v += [(k, f"[watchdog.execute() with strategy {s!r} applied to this state] {w}") for k, w in pv]
+            vclock.use(st.clock)
         return v
 
     # -- watchdog ----------------------------------------------------------
     def _watchdog(self, st, strategy, ended, extra_info):
         ctl = st.ctl
         v = []
-        info0 = ctl.check_deadlock()  # agrees with the reference: the previous transition was judged
+        info0 = ctl.check_deadlock()  # agrees with the reference when the previous transition was judged clean
+        ref_edges_before = ref_edges(st)
+        real0 = cycle_edges(ref_edges_before)  # the real wait-for cycles before the call, from the call history alone
         own0 = dict(st.own)
         wd = st.wd[strategy]  # the same watchdog object for the whole history
         events = wd.execute(ctl)
@@ -372,6 +390,13 @@ class Model:
             if dl:
                 v.append(("watchdog-kills-without-deadlock", f"no cycle reported, killed {[e.operation_id for e in dl]}"))
             return v
+        if not real0:
+            # nothing real to handle: whoever is killed for 'deadlock' is innocent (no victim-choice clause applies)
+            if dl:
+                v.append(("watchdog-kills-innocent:no-real-cycle", f"killed {[e.operation_id for e in dl]} for the "
+                          f"reported cycle {list(info0.agents)}, but the real wait-for graph {sorted(ref_edges_before)} "
+                          f"has no cycle"))
+            return v
         if len(dl) != 1:
             v.append(("watchdog-ignores-deadlock", f"reported cycle {info0.agents}, deadlock events: {len(dl)}"))
             return v
@@ -380,6 +405,9 @@ class Model:
         members = list(info0.agents)
         if victim not in members or victim not in st.ctx:
             v.append(("victim-not-in-cycle", f"victim {victim} not in {members} (live {sorted(st.ctx)})"))
+        elif victim not in {w for (w, _b, _r) in real0}:
+            v.append(("victim-not-on-real-cycle", f"victim {victim} (reported cycle {members}) is on no real wait-for "
+                      f"cycle {sorted(real0)}"))
         elif strategy == "priority":
             # after a boost "priority" has two readings (as started / as boosted): the weaker one is asserted
             base = [st.prio[m] for m in members if m in st.ctx]
@@ -478,6 +506,27 @@ _P33V = [_root(CBA, R3, ("r1",), pre=EACH, boost=True, wd="never")]
 _P33D = [_root(ABC, R3, pre=CYC3), _root(CBA, R3, pre=CYC3, boost=True, wd="never"),
          _root(ABC, R3, pre=TWO), _root(CBA, R3, pre=TWO, exempt=("B", "C"))]
 
+# Deep families: the alphabet without restarts (and, in quick, without re-entrant holds) has a small finite state space,
+# so the search runs to its FIXPOINT: every history of ANY length over that alphabet is covered, for every assignment
+# of two (three) priority levels to three operations of different ages and every preemptible subset of two resources.
+DEEP = ["acquire", "release", "release_other", "release_all", "complete", "abort", "watchdog"]
+FIXPOINT = 64  # depth bound that is never reached: the searches below end because no new state is found
+
+
+def _deep(prios, res, preempt, hold=1, alpha=DEEP, **kw):
+    ops = tuple((o, p, i + 1) for i, (o, p) in enumerate(zip("ABC", prios)))
+    return _root(ops, res, preempt, alpha=list(alpha), hold=hold, kills="set", **kw)
+
+
+_TWO_LEVELS = [(1, 1, 0), (1, 0, 1), (0, 1, 1), (0, 0, 1), (0, 1, 0), (1, 0, 0)]  # against age: A oldest ... C youngest
+_THREE_LEVELS = [(0, 1, 2), (0, 2, 1), (1, 0, 2), (1, 2, 0), (2, 0, 1), (2, 1, 0)]
+_PD = [_deep(p, R2, R2) for p in _TWO_LEVELS] + [_deep(p, R2, ("r1",)) for p in ((1, 1, 0), (0, 0, 1))] + \
+      [_deep((1, 2, 0), R2, R2)]
+_PDT = [_deep(p, R2, pre, hold=2) for p in _TWO_LEVELS for pre in (R2, ("r1",), ("r2",))] + \
+       [_deep(p, R2, pre) for p in _THREE_LEVELS for pre in (R2, ("r1",))]
+_PDB = [_deep(p, R2, R2, boost=True) for p in ((1, 1, 0), (0, 0, 1), (1, 2, 0))]
+_PDR = [_deep(p, R2, R2, alpha=DEEP + ["start"], restarts=1) for p in ((1, 1, 0), (0, 0, 1))]
+
 PLANS = {
     "quick": [
         ("2ops-3res", _P2, 7),
@@ -487,6 +536,7 @@ PLANS = {
         ("3ops-3res-each-holds-one", _P33E, 5),
         ("3ops-3res-each-holds-one-variants", _P33V, 5),
         ("3ops-3res-deadlocked", _P33D, 5),
+        ("3ops-2res-preemption-to-fixpoint", _PD, FIXPOINT),
     ],
     "thorough": [
         ("2ops-3res", _P2 + [_root(AB, R3, ("r1",))], 8),
@@ -496,8 +546,14 @@ PLANS = {
         ("3ops-3res-each-holds-one", _P33E + [_root(ABC, R3, ("r1",), pre=EACH)], 6),
         ("3ops-3res-each-holds-one-variants", _P33V, 6),
         ("3ops-3res-deadlocked", _P33D, 6),
+        ("3ops-2res-preemption-to-fixpoint", _PD + _PDT, FIXPOINT),
+        ("3ops-2res-preemption-boost-to-fixpoint", _PDB, FIXPOINT),
+        ("3ops-2res-preemption-one-restart-to-fixpoint", _PDR, FIXPOINT),
     ],
 }
+
+
+VALIDATE = {"quick": 60, "thorough": 200}  # canonical-state pairs re-checked for equal futures, per plan
 
 
 class _Collect:
@@ -506,6 +562,7 @@ class _Collect:
 
     def __init__(self, ctx):
         self.seed, self.outcomes, self.stats, self.sample = ctx.seed, ctx.outcomes, ctx.stats, ctx.sample
+        self.note, self.defer_harness_error = ctx.note, ctx.defer_harness_error
         self.buf = []
 
     def report(self, key, what, case):
@@ -546,7 +603,7 @@ def run(ctx):
             tot["prefix_steps"] += n
             if ok:
                 ok_roots.append(root)
-        res = explore.explore(Model(ok_roots), col, depth, label=name)
+        res = explore.explore(Model(ok_roots), col, depth, label=name, validate_canon=VALIDATE[ctx.tier])
         per[name] = {k: res[k] for k in ("states", "transitions", "depth_completed", "fixpoint", "roots", "frontier_left")}
         per[name]["depth_bound"] = depth
         per[name]["roots_dropped_prefix_violates"] = len(roots) - len(ok_roots)
